@@ -78,6 +78,7 @@ def run(eng, rep, tier, part=None):
                       nontrivial=any(e.kind == "call" for e in summ.events))
         # ---- R4c
         check_r4c(eng, rep, cq, fi, summ, ename)
+        check_cache_handover(eng, rep, summ, ename)
     # module-level public functions
     for fq, fi in sorted(prog.functions.items()):
         if part is not None and part[0] != 0:
@@ -185,6 +186,27 @@ def _is_builder_helper(fi, pname) -> bool:
 
 
 # --------------------------------------------------------------------------- R4c
+def check_cache_handover(eng, rep, summ, ename):
+    """D1 for objects built by the operation: a derived-once cache of a *new* object may be pre-filled with a value
+    computed for that object, never with the cache object of an operand (it answers for the operand, goes stale when
+    the two differ, and is shared between the two afterwards)."""
+    for ev, chain in summ.walk():
+        if ev.kind != "write" or ev.wkind != "attr" or ev.attr not in CACHE_FIELDS or ev.value is None:
+            continue
+        if CACHE_FIELDS[ev.attr][0] not in ("D1", "D3"):
+            continue
+        if not ev.target or any(operand_root(l) for l in ev.target):
+            continue          # writes to operands are judged by R4a / R4b above
+        taken = [l for l in ev.value.alias if operand_root(l) and any(seg in CACHE_FIELDS and CACHE_FIELDS[seg][0] in ("D1", "D3")
+                                                                      for seg in l[1])]
+        if taken:
+            rep.violation("R4b", "C19.R4b-D1", ev.site.func, "cache-from-other-object:" + ev.attr,
+                          "the cache %s of the object being built is assigned the cache object %s of an operand: it answers "
+                          "for the operand (stale as soon as the two differ) and is shared with it afterwards"
+                          % (ev.attr, ", ".join(loc_str(l) for l in sorted(taken))),
+                          site=ev.site.to_json(), path=[ename] + chain_strs(chain))
+
+
 def check_r4c(eng, rep, cq, fi, summ, ename):
     if fi.kind == "property" or fi.name in ("__iter__", "__next__", "__call__"):
         return
@@ -323,6 +345,15 @@ def check_r4b(eng, rep, cache_writes, structural=True):
             check_d5(eng, rep, ename, ev, chain, l, fieldname)
         elif disc == "D2":
             d2_events.append((ename, ev, chain, l))
+        elif ev.wkind == "attr" and ev.attr == fieldname and _own_none_guard(ev, fieldname) and CACHE_FIELDS[fieldname][1] \
+                and any(MUTATORS.get(o) for o in CACHE_FIELDS[fieldname][1]) \
+                and ev.func.name not in ("__iter__", "__next__"):       # iterator-protocol state is reset by __iter__
+            rep.violation("R4b", "C19.R4b-scratch", ev.site.func, "scratch-kept-across-calls:" + fieldname,
+                          "the scratch field %s is now filled only when it is None, i.e. kept from one call to the next, but "
+                          "the public mutators of its class (%s) do not reset it: after a mutation the next call answers "
+                          "from the stale object" % (fieldname, ", ".join(sorted(
+                              m for o in CACHE_FIELDS[fieldname][1] for m in MUTATORS.get(o, [])))[:120]),
+                          site=ev.site.to_json(), path=[ename] + chain_strs(chain))
         else:
             rep.holds("R4b", "C19.R4b-scratch", ev.site.func, "scratch-write:" + fieldname,
                       "write to declared scratch field (no answer is read from it across calls)", nontrivial=False)
@@ -380,6 +411,16 @@ def check_d1(eng, rep, ename, ev, chain, l, fieldname):
 
 def _under(d, obj):
     return d[0] == obj[0] and d[1][:len(obj[1])] == obj[1]
+
+
+def _own_none_guard(ev, fieldname) -> bool:
+    """the write sits under `<x>.<fieldname> is None` (the field is filled once and kept)"""
+    for text, pol, _names in ev.facts:
+        if ("." + fieldname + " is not None") in text and pol is False:
+            return True
+        if ("." + fieldname + " is None") in text and pol is True:
+            return True
+    return False
 
 
 def _has_none_guard(ev) -> bool:
